@@ -494,9 +494,10 @@ class InterpND(object):
         ndarray
             Vector of gradients of the interpolated values with respect to each value in xi.
         """
-        if (self._xi is None) or (not np.array_equal(xi, self._xi)):
-            # If inputs have changed since last computation, then re-interpolate.
-            self.interpolate(xi)
+        if (self._xi is None) or (not self._compute_d_dx) or (not np.array_equal(xi, self._xi)):
+            # If inputs have changed since last computation, or the last computation did not
+            # request the derivatives, then re-interpolate.
+            self.interpolate(xi, compute_derivative=True)
 
         return self._gradient().reshape(np.asarray(xi).shape)
 
